@@ -184,6 +184,13 @@ theorem parsePosting_RC {a st : PState σ} {tl} (h0 : RC E a tl st) (h : st.curr
 
 grind_pattern parsePosting_RC => RC E a tl st, parsePosting E st
 
+/-- The same, seen from the state after the Indent has been consumed (used for progress). -/
+theorem parsePosting_RC' {a st : PState σ} (h1 : RC E a 0 (advance E st)) (h : st.current.ty = .indent) :
+    RC E a 1 (parsePosting E st).2 := by
+  unfold parsePosting
+  have := postingOpen_closing E (advance E st)
+  grind (splits := 20)
+
 theorem postingsF_RC (n : Nat) {a st : PState σ} {tl} (h0 : RC E a tl st) (h1 : tl ≤ 2) :
     RC E a 2 (postingsF E n st).2 := by
   induction n generalizing st tl with
@@ -289,7 +296,13 @@ theorem parseDirective_RC {a st : PState σ} (h0 : RC E a 0 st) (h : st.current.
   grind (splits := 20) [parseAccountDirective_RC, parseCommodityDirective_RC, parseIncludeDirective_RC,
     parsePriceDirective_RC, parseDefaultCommodityDirective_RC, parseYearDirective_RC]
 
-theorem journalStep_RC (st : PState σ) (_h : st.current.ty ≠ .eof) : RC E st 2 (journalStep E st).2 := by
+theorem parseDirective_RC' {a st : PState σ} (h1 : RC E a 0 (advance E st)) :
+    RC E a 2 (parseDirective E st).2 := by
+  unfold parseDirective
+  grind (splits := 20) [parseAccountDirective_RC, parseCommodityDirective_RC, parseIncludeDirective_RC,
+    parsePriceDirective_RC, parseDefaultCommodityDirective_RC, parseYearDirective_RC]
+
+theorem journalStep_RC (st : PState σ) : RC E st 2 (journalStep E st).2 := by
   have h0 := RC.refl E st
   unfold journalStep
   grind (splits := 20) [parseTransaction_RC, parseDirective_RC]
